@@ -271,15 +271,16 @@ BlockMsg(S, r, h, now) == Requests(Deliver(S), r, h, now)
 (* BeginBlock.                                                              *)
 (***************************************************************************)
 \* -- reward distribution (small-amount regime: pool * |votes| far below 10^18).
-\* The code multiplies the pool by round_18(p/P) and truncates: the result is floor(pool*p/P), except that an
-\* exactly divisible product comes out one lower when the 18-digit ratio was rounded down.
+\* The code multiplies the pool by the 18-digit ratio p/P ROUNDED DOWN (repaired: rounding to nearest could over-distribute) and
+\* truncates: the result is floor(pool*p/P), except that an exactly divisible product comes out one lower when the ratio is
+\* not exactly representable in 18 digits.
 RECURSIVE Pow10Mod(_, _)
 Pow10Mod(k, P) == IF k = 0 THEN 1 % P ELSE (10 * Pow10Mod(k - 1, P)) % P
 
 Share(pool, p, P) ==
   LET x == pool * p
       frac == (p * Pow10Mod(18, P)) % P
-  IN IF x % P = 0 /\ frac # 0 /\ 2 * frac < P /\ x > 0 THEN (x \div P) - 1 ELSE x \div P
+  IN IF x % P = 0 /\ frac # 0 /\ x > 0 THEN (x \div P) - 1 ELSE x \div P
 
 RECURSIVE DistWalk(_, _, _, _, _)
 DistWalk(S, votes, P, gas0, goat0) ==
